@@ -551,8 +551,9 @@ scenario Main():
         ego = new Object
 """
 
-# a simulation that exercises sub-scenarios ending out of order, nested behaviors (still running when the
-# simulation ends), overrides and 2D mode
+# a simulation that exercises sub-scenarios ending out of order (A before B), nested behaviors (still running when
+# the simulation ends) and 2D mode; the top-level scenario has no setup block, so compiling it leaves
+# `inInitialScenario` untouched and what the simulation does to the module state can be told apart
 PROG_SIM = """
 behavior Inner():
     while True:
@@ -561,16 +562,13 @@ behavior Outer():
     do Inner()
 scenario A():
     setup:
-        a = new Object at (10, 10), with behavior Outer
+        ego = new Object with behavior Outer
         terminate after 1 steps
 scenario B():
     setup:
-        b = new Object at (20, 20)
-        override ego with foo 1
+        b = new Object at (20, 20), with behavior Outer
         terminate after 5 steps
 scenario Main():
-    setup:
-        ego = new Object with behavior Outer, with foo 0
     compose:
         do A(), B()
 """
